@@ -967,6 +967,79 @@ def run_raw(ctx, kept):
             check_section(ctx, 'raw', rq, fx, rp, compare_property=False, impl=impl)
 
 
+# ----------------------------------------------------------------------------------------------- CU and TU on one object
+def _cutu_sections(le, asz):
+    """one DWARF 4 compile unit in .debug_info and one type unit in .debug_types, BOTH at offset 0 of their sections,
+    each with its own DW_AT_stmt_list; two different minimal line programs"""
+    import struct
+    E = '<' if le else '>'
+
+    def prog(fname, addr, adv):
+        std = bytes([0, 1, 1, 1, 1, 0, 0, 0, 1, 0, 0, 1])
+        tables = b'\0' + fname + b'\0\0\0\0' + b'\0'
+        after = bytes([1, 1, 1, 0xfb, 14, 13]) + std + tables
+        body = bytes([0, 1 + asz, 2]) + addr.to_bytes(asz, 'little' if le else 'big') + bytes([0x14 + adv]) + bytes([0, 1, 1])
+        rest = struct.pack(E + 'H', 4) + struct.pack(E + 'I', len(after)) + after + body
+        return struct.pack(E + 'I', len(rest)) + rest
+    p1, p2 = prog(b'cu.c', 0x1000, 0), prog(b'type.h', 0x2000, 3)
+    line = p1 + p2
+    abbrev = bytes([1, 0x11, 0, 0x10, 0x17, 0, 0, 2, 0x41, 0, 0x10, 0x17, 0, 0, 0])
+    cu_die = bytes([1]) + struct.pack(E + 'I', 0)
+    cu_rest = struct.pack(E + 'H', 4) + struct.pack(E + 'I', 0) + bytes([asz]) + cu_die
+    info = struct.pack(E + 'I', len(cu_rest)) + cu_rest
+    tu_die = bytes([2]) + struct.pack(E + 'I', len(p1))
+    tu_rest = struct.pack(E + 'H', 4) + struct.pack(E + 'I', 0) + bytes([asz]) + struct.pack(E + 'Q', 0x1122334455667788) + \
+        struct.pack(E + 'I', 4 + 2 + 4 + 1 + 8 + 4) + tu_die
+    types = struct.pack(E + 'I', len(tu_rest)) + tu_rest
+    return {'.debug_info': info, '.debug_abbrev': abbrev, '.debug_line': line, '.debug_types': types}
+
+
+def _cutu_observe(le, asz, order):
+    from elftools.dwarf.dwarfinfo import DWARFInfo, DebugSectionDescriptor, DwarfConfig
+    secs = _cutu_sections(le, asz)
+
+    def mk():
+        def dd(nm):
+            b = secs.get(nm)
+            return None if b is None else DebugSectionDescriptor(stream=io.BytesIO(b), name=nm, global_offset=0, size=len(b), address=0)
+        return DWARFInfo(config=DwarfConfig(little_endian=le, machine_arch='x64', default_address_size=asz),
+                         debug_info_sec=dd('.debug_info'), debug_aranges_sec=None, debug_abbrev_sec=dd('.debug_abbrev'),
+                         debug_frame_sec=None, eh_frame_sec=None, debug_str_sec=None, debug_loc_sec=None,
+                         debug_ranges_sec=None, debug_line_sec=dd('.debug_line'), debug_pubtypes_sec=None,
+                         debug_pubnames_sec=None, debug_addr_sec=None, debug_str_offsets_sec=None,
+                         debug_line_str_sec=None, debug_loclists_sec=None, debug_rnglists_sec=None,
+                         debug_sup_sec=None, gnu_debugaltlink_sec=None, debug_types_sec=dd('.debug_types'))
+
+    def unit(di, which):
+        return next(iter(di.iter_CUs())) if which == 'cu' else next(iter(di.iter_TUs()))
+
+    def look(di, which):
+        lp = di.line_program_for_CU(unit(di, which))
+        if lp is None:
+            return None
+        return {'files': [canon(f.name) for f in lp.header['file_entry']], 'start': lp.program_start_offset, 'end': lp.program_end_offset,
+                'rows': [[e.state.address, e.state.line, e.state.end_sequence] for e in lp.get_entries() if e.state is not None]}
+    live = mk()
+    got = {w: run_impl(lambda w=w: look(live, w)) for w in order}
+    want = {w: run_impl(lambda w=w: look(mk(), w)) for w in order}
+    return got, want
+
+
+def run_cutu(ctx):
+    """A compile unit and a type unit at EQUAL offsets of their sections, asked for their line programs on one DWARFInfo in
+    both orders: each must get the program its own DW_AT_stmt_list designates — what a fresh object answers (a seeded
+    per-unit memo keyed by the unit offset alone handed the first unit's program to the second)."""
+    for le in (True, False):
+        for asz in (4, 8):
+            for order in (['cu', 'tu'], ['tu', 'cu'], ['cu', 'tu', 'cu']):
+                case = {'le': le, 'asz': asz, 'order': order}
+                got, want = _cutu_observe(le, asz, order)
+                ctx.out.case(case, nontrivial=True)
+                ctx.out.count('cutu')
+                if got != want or 'err' in want.get('cu', {}) or want.get('cu') == want.get('tu'):
+                    ctx.out.violation('property', 'cutu', case, expect=want, got=got)
+
+
 def run(ctx):
     import os
     if os.environ.get('VERIF_C05_ONLY') == 'info':         # development aid (mutation tests of the info stream alone)
@@ -975,13 +1048,20 @@ def run(ctx):
     kept_edge = run_sec(ctx, 'edge', n=ctx.budget(400, 4000), keep=ctx.budget(120, 800))
     kept = run_sec(ctx)
     run_info(ctx)
+    run_cutu(ctx)
     run_raw(ctx, kept_edge + kept)
 
 
 def replay(ctx, payload):
     v = payload['violation']
     case = v['case']
+    if v['stream'] == 'cutu':
+        got, want = _cutu_observe(case['le'], case['asz'], case['order'])
+        return {'stream': 'cutu', 'impl': got, 'expect': want, 'fails': got != want}
     req, fx = case['req'], case['fx']
+    if v['stream'] == 'cutu':
+        got, want = _cutu_observe(case['le'], case['asz'], case['order'])
+        return {'stream': 'cutu', 'impl': got, 'expect': want, 'fails': got != want}
     if v['stream'] == 'info':
         rp = ctx.driver.ask(req)
         if 'fatal' in rp:
